@@ -15,6 +15,7 @@ import (
 	"sort"
 	"strings"
 	"sync"
+	"sync/atomic"
 	"syscall"
 	"time"
 
@@ -145,6 +146,7 @@ type Rec struct {
 	sampleKind map[string]int
 	caseStart  time.Duration // process CPU at case start
 	inCase     bool
+	extraCPU   atomic.Int64 // nanoseconds added to this case's CPU budget (ExpectCost)
 	single     bool // running a single case (replay / isolated rerun)
 	quiet      bool
 	lastViol   *ViolationRec
@@ -169,6 +171,17 @@ func (r *Rec) PropID() string { return r.prop.ID }
 // Begin announces the program/input about to be handed to the library. It is
 // written to the shard's .cur file before the call so that a crash or hang can
 // be attributed.
+// ExpectCost declares, at the start of a case, that the case legitimately costs
+// about sec seconds of CPU on an idle machine (a deliberately large input, e.g.
+// the largest range that is not an error). Its CPU budget is raised by twenty
+// times that, in its shard and when it is re-run alone: CPU time is not immune
+// to load (memory bandwidth, page faults, the garbage collector's helpers), and
+// a case that is known to be three orders of magnitude above the median must
+// not be judged by the margin that suits the median.
+func (r *Rec) ExpectCost(sec float64) {
+	r.extraCPU.Store(int64(20 * sec * float64(time.Second)))
+}
+
 func (r *Rec) Begin(prog, doc string) {
 	r.mu.Lock()
 	r.curProg, r.curDoc = prog, doc
@@ -536,7 +549,7 @@ func WorkerMain(propID, tier string, seed uint64, shard, of int, dir string, ski
 				}
 			}
 			var ms runtime.MemStats
-			over := blocked || used > time.Duration(budget*float64(time.Second))
+			over := blocked || used > time.Duration(budget*float64(time.Second))+time.Duration(r.extraCPU.Load())
 			mem := false
 			if !over {
 				runtime.ReadMemStats(&ms)
@@ -566,6 +579,7 @@ func WorkerMain(propID, tier string, seed uint64, shard, of int, dir string, ski
 		curIdx = i
 		r.curProg, r.curDoc = "", ""
 		r.caseStart = cpuNow()
+		r.extraCPU.Store(0)
 		r.inCase = true
 		wmu.Unlock()
 		r.mu.Lock()
